@@ -134,7 +134,9 @@ func rulesC07(e *Engine, r *Report) {
 				C("call(client.(*Broker).canDelete)(§)", "mayDelete"),
 			)
 			e.Guarded(r, "R07.3", fmt.Sprintf("%s: FileCache.Remove #%d", e.ShortName(EnclosingTop(s.Fn)), i+1), s.Fn, only(s.Instr.(ssa.Instruction)), cls,
-				func(l LabelSet) bool { return l.Has("ignored") || l.Has("gone") || l.HasAll("deleted", "done", "mayDelete") },
+				func(l LabelSet) bool {
+					return l.Has("ignored") || l.Has("gone") || l.HasAll("deleted", "done", "mayDelete")
+				},
 				"store ignores the file | file no longer exists | done, deletable and deleted")
 		}
 		r.Min("R07.3", "FileCache.Remove sites in package client", len(mod), 4)
